@@ -38,4 +38,7 @@ def step (pool : List Msg) (ws : List String) : List Msg × String :=
       | .ok p => (p, "ok " ++ dump p)
       | .error e => (pool, s!"err {e} " ++ dump pool)
 
+def dispatch (sub : String) (i o : IO.FS.Stream) : Option (IO Unit) :=
+  if sub == "c07" then some (Driver.loop i o step []) else none
+
 end Driver.C07
